@@ -26,7 +26,7 @@ SPEC = dict(
         dict(name="known", pkg="c06_crash", test="TestKnown.*", checks=1, shards=1, timeout=600),
     ],
     thorough=[
-        dict(name="crash_pebble", pkg="c06_crash", test="TestCrashEnumeration", checks=3, shards=16, timeout=3000,
+        dict(name="crash_pebble", pkg="c06_crash", test="TestCrashEnumeration", checks=2, shards=16, timeout=3000,
              env={"C06_ENGINE": "pebble", "C06_STRIDE": "1"}),
         dict(name="crash_rocksdb", pkg="c06_crash", test="TestCrashEnumeration", checks=2, shards=16, timeout=3000,
              env={"C06_ENGINE": "rocksdb", "C06_STRIDE": "1"}),
